@@ -13,6 +13,13 @@ package main
 //     filepath, regexp): the real builtin, through the object API and through scripts,
 //     against the Go function called directly on the same argument tuple (Spec); the
 //     strings module additionally against the Lean glue model (Mismatch).
+//  4. sessions and liveness: the parts above look at a result once, right after its call, and
+//     keep only a copy.  Sessions keep the LIVE result objects of several codec calls and hand
+//     them on (a := encode(A); b := encode(B); decode(a)), re-examining every slot after every
+//     step, through the object API and as one script, against the Go library (Spec) and the
+//     Lean heap model (Mismatch).  Liveness does the same for every call of parts 1-3: the last
+//     few result objects stay alive and must not change when later calls run, and no call may
+//     change its arguments.
 
 import (
 	"bytes"
@@ -371,7 +378,11 @@ func c19_callObj(fn object.Object, args ...object.Object) (out string) {
 	if !ok {
 		return "other:not-a-builtin"
 	}
-	return c19_outcomeOf(b.Call(c19ctx, args...))
+	before := c19_liveBefore(args)
+	res := b.Call(c19ctx, args...)
+	out = c19_outcomeOf(res)
+	c19_liveAfter(b.Name(), args, before, res, out)
+	return out
 }
 
 func c19_evalScript(src string, args []object.Object) (out string) {
@@ -384,8 +395,10 @@ func c19_evalScript(src string, args []object.Object) (out string) {
 	for i, a := range args {
 		g["a"+strconv.Itoa(i)] = a
 	}
+	before := c19_liveBefore(args)
 	res, err := risor.Eval(c19ctx, src, risor.WithGlobals(g))
 	if err != nil {
+		c19_liveAfter("script{"+src+"}", args, before, nil, "err")
 		msg := err.Error()
 		switch {
 		case strings.HasPrefix(msg, "panic:"):
@@ -397,7 +410,90 @@ func c19_evalScript(src string, args []object.Object) (out string) {
 		}
 		return "err"
 	}
-	return c19_outcomeOf(res)
+	out = c19_outcomeOf(res)
+	c19_liveAfter("script{"+src+"}", args, before, res, out)
+	return out
+}
+
+// ------------------------------------------------------------------ liveness of results and arguments
+//
+// Every call made through callObj / evalScript is watched: (1) the call must leave its
+// arguments as they were; (2) the objects returned by the last few calls are kept ALIVE (the
+// object itself, not a copy) and looked at again after every later call: a value that was
+// returned stays what it was, whatever runs afterwards (no pooled / cached / shared output
+// buffer behind a byte_slice, string, list or map).
+
+type c19_liveEnt struct {
+	fn   string
+	args []string
+	obj  object.Object
+	tok  string
+}
+
+var c19Live struct {
+	r                         *Result
+	ents                      []c19_liveEnt
+	rechecks, tracked, argChk int
+}
+
+const c19LiveCap = 6
+
+func c19_tokOf(o object.Object) string {
+	if o == nil {
+		return "?<nil>"
+	}
+	if v := c19_jvOfObj(o); v != nil {
+		return v.tok()
+	}
+	return "?" + string(o.Type())
+}
+
+func c19_liveBefore(args []object.Object) []string {
+	if c19Live.r == nil {
+		return nil
+	}
+	t := make([]string, len(args))
+	for i, a := range args {
+		t[i] = c19_tokOf(a)
+	}
+	return t
+}
+
+func c19_liveDesc(fn string, args []string) string { return fn + "(" + strings.Join(args, ", ") + ")" }
+
+func c19_liveAfter(fn string, args []object.Object, before []string, res object.Object, out string) {
+	L := &c19Live
+	if L.r == nil || before == nil && len(args) > 0 {
+		return
+	}
+	for i, a := range args {
+		L.argChk++
+		if now := c19_tokOf(a); now != before[i] {
+			L.r.Spec(fmt.Sprintf("argument-changed %s arg%d", c19_liveDesc(fn, before), i),
+				fmt.Sprintf("argument %d was %s before the call and is %s after it: the call changed its argument", i, before[i], now), "")
+		}
+	}
+	kept := L.ents[:0]
+	for _, en := range L.ents {
+		L.rechecks++
+		if now := c19_tokOf(en.obj); now != en.tok {
+			L.r.Spec("result-changed "+c19_liveDesc(en.fn, en.args)+" ; then "+c19_liveDesc(fn, before),
+				fmt.Sprintf("the first call returned %s; the SAME object, looked at again after the second call, is %s: a returned value changed when a later call ran", en.tok, now), "")
+			continue
+		}
+		kept = append(kept, en)
+	}
+	L.ents = kept
+	switch res.(type) {
+	case *object.ByteSlice, *object.String, *object.List, *object.Map:
+		if strings.HasPrefix(out, "val ") {
+			if len(L.ents) >= c19LiveCap {
+				L.ents = append(L.ents[:0], L.ents[1:]...)
+			}
+			L.ents = append(L.ents, c19_liveEnt{fn, before, res, out[4:]})
+			L.tracked++
+		}
+	}
 }
 
 func c19_coarse(o string) string {
@@ -2076,13 +2172,578 @@ func c19Floats64(e *Env) {
 	}
 }
 
+// ------------------------------------------------------------------ sessions
+//
+// A session is a sequence of steps over numbered slots: a literal, encode(slot, codec) or
+// decode(slot, codec).  Through the object API the LIVE result objects are kept and handed on
+// (never copied); after every step every slot is looked at again.  Spec (the Go library
+// functions applied to immutable values, = Lean runSpec): each slot shows for ever what its
+// step returned, so in particular decode(encode(x)) = x however many other calls ran in
+// between.  Sessions over the modelled codecs are also sent to the Lean heap model
+// (runImpl fresh), and sessions without errors are run as one script in one VM as well.
+
+type c19_sessCodec struct {
+	label    string
+	modelled bool // known to the Lean oracle under this label
+	encKind  byte // 's' or 'b': type of the encoder's result
+	decKind  byte
+	enc      func([]byte) []byte
+	dec      func([]byte) ([]byte, bool)
+	callEnc  func(in object.Object) object.Object
+	callDec  func(in object.Object) object.Object
+	srcEnc   func(v string) string
+	srcDec   func(v string) string
+}
+
+func c19SessCodecs() []c19_sessCodec {
+	var out []c19_sessCodec
+	for _, cd := range c19CodecDefs() {
+		cd := cd
+		sc := c19_sessCodec{label: cd.oracle, modelled: true, encKind: 's', decKind: 'b',
+			enc: func(b []byte) []byte { return []byte(cd.enc(b)) },
+			dec: func(t []byte) ([]byte, bool) { r, err := cd.dec(string(t)); return r, err == nil }}
+		if cd.name != "" {
+			name := object.NewString(cd.name)
+			sc.label = cd.name
+			if cd.name == "urlquery" {
+				sc.decKind = 's'
+			}
+			sc.callEnc = func(in object.Object) object.Object { return builtins.Encode(c19ctx, in, name) }
+			sc.callDec = func(in object.Object) object.Object { return builtins.Decode(c19ctx, in, name) }
+			sc.srcEnc = func(v string) string { return `encode(` + v + `, "` + cd.name + `")` }
+			sc.srcDec = func(v string) string { return `decode(` + v + `, "` + cd.name + `")` }
+		} else {
+			pad := object.NewBool(cd.pad)
+			call := func(fname string) func(object.Object) object.Object {
+				return func(in object.Object) object.Object {
+					fn, ok := c19Module("base64").GetAttr(fname)
+					if !ok {
+						return object.Errorf("no such function base64.%s", fname)
+					}
+					return fn.(*object.Builtin).Call(c19ctx, in, pad)
+				}
+			}
+			sc.callEnc, sc.callDec = call(cd.mod), call(cd.modDec)
+			sc.srcEnc = func(v string) string { return "base64." + cd.mod + "(" + v + ", " + strconv.FormatBool(cd.pad) + ")" }
+			sc.srcDec = func(v string) string { return "base64." + cd.modDec + "(" + v + ", " + strconv.FormatBool(cd.pad) + ")" }
+		}
+		out = append(out, sc)
+	}
+	gz := object.NewString("gzip")
+	out = append(out, c19_sessCodec{label: "gzip", encKind: 'b', decKind: 'b',
+		enc: func(b []byte) []byte {
+			var buf bytes.Buffer
+			w := gzip.NewWriter(&buf)
+			w.Write(b)
+			w.Close()
+			return buf.Bytes()
+		},
+		dec: func(t []byte) ([]byte, bool) {
+			zr, err := gzip.NewReader(bytes.NewReader(t))
+			if err != nil {
+				return nil, false
+			}
+			r, err := io.ReadAll(zr)
+			return r, err == nil
+		},
+		callEnc: func(in object.Object) object.Object { return builtins.Encode(c19ctx, in, gz) },
+		callDec: func(in object.Object) object.Object { return builtins.Decode(c19ctx, in, gz) },
+		srcEnc:  func(v string) string { return `encode(` + v + `, "gzip")` },
+		srcDec:  func(v string) string { return `decode(` + v + `, "gzip")` }})
+	return out
+}
+
+type c19_sessStep struct {
+	op    byte // 'L' literal, 'E' encode, 'D' decode
+	codec int  // index into the codec table
+	src   int
+	kind  byte // literal: 's' string or 'b' byte_slice
+	lit   []byte
+}
+
+type c19_session []c19_sessStep
+
+func (ss c19_session) text(cs []c19_sessCodec) string {
+	parts := make([]string, len(ss))
+	for i, st := range ss {
+		if st.op == 'L' {
+			parts[i] = "L:" + string(st.kind) + ":" + c19_hx(string(st.lit))
+		} else {
+			parts[i] = string(st.op) + ":" + cs[st.codec].label + ":" + strconv.Itoa(st.src)
+		}
+	}
+	return "[" + strings.Join(parts, " ") + "]"
+}
+
+// source renders the session as a risor program (literals are the globals a0, a1, ...).
+func (ss c19_session) source(cs []c19_sessCodec) (string, []object.Object) {
+	var sb strings.Builder
+	var lits []object.Object
+	names := make([]string, len(ss))
+	for i, st := range ss {
+		v := "s" + strconv.Itoa(i)
+		names[i] = v
+		switch st.op {
+		case 'L':
+			sb.WriteString(v + " := a" + strconv.Itoa(len(lits)) + "\n")
+			lits = append(lits, st.litObj())
+		case 'E':
+			sb.WriteString(v + " := " + cs[st.codec].srcEnc("s"+strconv.Itoa(st.src)) + "\n")
+		case 'D':
+			sb.WriteString(v + " := " + cs[st.codec].srcDec("s"+strconv.Itoa(st.src)) + "\n")
+		}
+	}
+	sb.WriteString("[" + strings.Join(names, ", ") + "]")
+	return sb.String(), lits
+}
+
+func (st c19_sessStep) litObj() object.Object {
+	if st.kind == 's' {
+		return object.NewString(string(st.lit))
+	}
+	return object.NewByteSlice(append([]byte(nil), st.lit...))
+}
+
+// words: the session as a script a reader can retype
+func (ss c19_session) words(cs []c19_sessCodec) string {
+	var parts []string
+	for i, st := range ss {
+		v := "s" + strconv.Itoa(i)
+		switch st.op {
+		case 'L':
+			q := strconv.Quote(string(st.lit))
+			if len(q) > 60 {
+				q = q[:57] + `..."`
+			}
+			if st.kind == 'b' {
+				q = "byte_slice(" + q + ")"
+			}
+			parts = append(parts, v+" := "+q)
+		case 'E':
+			parts = append(parts, v+" := "+cs[st.codec].srcEnc("s"+strconv.Itoa(st.src)))
+		case 'D':
+			parts = append(parts, v+" := "+cs[st.codec].srcDec("s"+strconv.Itoa(st.src)))
+		}
+	}
+	return strings.Join(parts, "; ")
+}
+
+// spec evaluates the session with the Go library functions on immutable values: per slot the
+// token "s<hex>" / "b<hex>" or "err".
+func (ss c19_session) spec(cs []c19_sessCodec) []string {
+	out := make([]string, len(ss))
+	val := make([][]byte, len(ss))
+	for i, st := range ss {
+		switch st.op {
+		case 'L':
+			val[i] = st.lit
+			out[i] = string(st.kind) + c19_hx(string(st.lit))
+		case 'E', 'D':
+			if st.src >= i || out[st.src] == "err" {
+				out[i] = "err"
+				continue
+			}
+			c := cs[st.codec]
+			if st.op == 'E' {
+				val[i] = c.enc(val[st.src])
+				out[i] = string(c.encKind) + c19_hx(string(val[i]))
+			} else if r, ok := c.dec(val[st.src]); ok {
+				val[i] = r
+				out[i] = string(c.decKind) + c19_hx(string(r))
+			} else {
+				out[i] = "err"
+			}
+		}
+	}
+	return out
+}
+
+func c19_slotTok(o object.Object) string {
+	switch o := o.(type) {
+	case nil:
+		return "other:<nil>"
+	case *object.Error:
+		return "err"
+	case *object.String:
+		return "s" + c19_hx(o.Value())
+	case *object.ByteSlice:
+		return "b" + c19_hx(string(o.Value()))
+	}
+	return "other:" + string(o.Type())
+}
+
+// runAPI runs the session through the object API on live objects.  After every step every
+// slot is looked at again.  It returns the slots as they look at the end and, if some slot
+// ever differed from the Spec, a description of the first such moment.
+func (ss c19_session) runAPI(cs []c19_sessCodec, want []string) (final []string, bad string) {
+	slots := make([]object.Object, 0, len(ss))
+	first := make([]string, 0, len(ss))
+	for i, st := range ss {
+		var o object.Object
+		switch {
+		case st.op == 'L':
+			o = st.litObj()
+		case st.src >= i:
+			o = object.Errorf("bad slot")
+		default:
+			if _, isErr := slots[st.src].(*object.Error); isErr {
+				o = slots[st.src]
+			} else if st.op == 'E' {
+				o = c19_guardedObj(func() object.Object { return cs[st.codec].callEnc(slots[st.src]) })
+			} else {
+				o = c19_guardedObj(func() object.Object { return cs[st.codec].callDec(slots[st.src]) })
+			}
+		}
+		slots = append(slots, o)
+		first = append(first, c19_slotTok(o))
+		if bad != "" {
+			continue
+		}
+		for j := 0; j <= i; j++ {
+			now := c19_slotTok(slots[j])
+			if now == want[j] {
+				continue
+			}
+			if j == i {
+				bad = fmt.Sprintf("step s%d returned %s, the Go library function on the same value gives %s", i, now, want[j])
+			} else if first[j] == want[j] {
+				bad = fmt.Sprintf("s%d was %s when its call returned (as the Go library gives) but the same object is %s after step s%d ran: a later call changed an earlier result", j, first[j], now, i)
+				if ss[j].op == 'E' && ss[ss[j].src].op == 'L' {
+					back := c19_slotTok(c19_guardedObj(func() object.Object { return cs[ss[j].codec].callDec(slots[j]) }))
+					bad += fmt.Sprintf("; decoding s%d now gives %s, s%d is %s (decode(encode(x)) = x is lost)", j, back, ss[j].src, want[ss[j].src])
+				}
+			} else {
+				bad = fmt.Sprintf("s%d is %s after step s%d, the Go library gives %s", j, now, i, want[j])
+			}
+			break
+		}
+	}
+	final = make([]string, len(slots))
+	for j, o := range slots {
+		final[j] = c19_slotTok(o)
+	}
+	return final, bad
+}
+
+// runScript runs the whole session as one program in one VM and looks at all slots at the end.
+func (ss c19_session) runScript(cs []c19_sessCodec, want []string) (bad string) {
+	src, lits := ss.source(cs)
+	var res object.Object
+	var err error
+	func() {
+		defer func() {
+			if r := recover(); r != nil {
+				err = fmt.Errorf("panic: %v", r)
+			}
+		}()
+		g := map[string]any{}
+		for i, a := range lits {
+			g["a"+strconv.Itoa(i)] = a
+		}
+		res, err = risor.Eval(c19ctx, src, risor.WithGlobals(g))
+	}()
+	if err != nil {
+		return "the script failed with " + strconv.Quote(err.Error()) + " although no step is an error for the Go library"
+	}
+	l, ok := res.(*object.List)
+	if !ok || len(l.Value()) != len(want) {
+		return "the script did not return the list of its slots"
+	}
+	for j, o := range l.Value() {
+		if now := c19_slotTok(o); now != want[j] {
+			return fmt.Sprintf("at the end of the script s%d is %s, the Go library gives %s", j, now, want[j])
+		}
+	}
+	return ""
+}
+
+// drop removes step k and every step that (transitively) reads it; slots are renumbered.
+func (ss c19_session) drop(k int) c19_session {
+	gone := make([]bool, len(ss))
+	gone[k] = true
+	newIdx := make([]int, len(ss))
+	var out c19_session
+	for i, st := range ss {
+		if i != k && st.op != 'L' && st.src < i && gone[st.src] {
+			gone[i] = true
+		}
+		if gone[i] {
+			continue
+		}
+		newIdx[i] = len(out)
+		if st.op != 'L' {
+			st.src = newIdx[st.src]
+		}
+		out = append(out, st)
+	}
+	return out
+}
+
+// shrink makes a failing session smaller while it keeps failing (fewer steps, then shorter
+// literals).  fails must be deterministic enough; it is tried a few times per candidate.
+func (ss c19_session) shrink(fails func(c19_session) string) (c19_session, string) {
+	why := fails(ss)
+	try := func(c c19_session) bool {
+		if len(c) == 0 {
+			return false
+		}
+		for n := 0; n < 3; n++ {
+			if w := fails(c); w != "" {
+				ss, why = c, w
+				return true
+			}
+		}
+		return false
+	}
+	for changed := true; changed; {
+		changed = false
+		for k := len(ss) - 1; k >= 0; k-- {
+			if k < len(ss) && try(ss.drop(k)) {
+				changed = true
+			}
+		}
+	}
+	for k := range ss {
+		if ss[k].op != 'L' {
+			continue
+		}
+		for _, cand := range [][]byte{[]byte(""), []byte("a"), []byte("b"), []byte("aaaa"), []byte("bbbb"), ss[k].lit[:len(ss[k].lit)/2]} {
+			if len(cand) >= len(ss[k].lit) {
+				continue
+			}
+			c := append(c19_session(nil), ss...)
+			c[k].lit = cand
+			if try(c) {
+				break
+			}
+		}
+	}
+	return ss, why
+}
+
+// sameLen returns bytes of the same length as b that differ from it everywhere.
+func c19_sameLen(r *RNG, b []byte) []byte {
+	o := make([]byte, len(b))
+	for i := range b {
+		o[i] = b[i] ^ byte(1+r.Intn(255))
+	}
+	return o
+}
+
+func c19_genSession(r *RNG, cs []c19_sessCodec) c19_session {
+	var ss c19_session
+	lit := func(b []byte) {
+		k := byte('b')
+		if r.Chance(40) {
+			k = 's'
+		}
+		ss = append(ss, c19_sessStep{op: 'L', kind: k, lit: b})
+	}
+	a := c19_randBytes(r)
+	lit(a)
+	for n := r.Intn(3); n > 0; n-- {
+		switch r.Intn(3) {
+		case 0:
+			lit(c19_sameLen(r, a))
+		case 1:
+			lit(c19_randBytes(r))
+		default: // a longer or shorter relative of the first
+			if r.Bool() {
+				lit(append(append([]byte(nil), a...), c19_randBytes(r)...))
+			} else {
+				lit(a[:r.Intn(len(a)+1)])
+			}
+		}
+	}
+	focus := -1
+	if r.Chance(65) {
+		focus = r.Intn(len(cs))
+	}
+	pick := func() int {
+		if focus >= 0 && r.Chance(85) {
+			return focus
+		}
+		return r.Intn(len(cs))
+	}
+	encBy := map[int]int{} // slot -> codec that produced it by encoding
+	nSteps := 2 + r.Intn(7)
+	for n := 0; n < nSteps; n++ {
+		i := len(ss)
+		var encoded []int
+		for j := 0; j < i; j++ {
+			if _, ok := encBy[j]; ok {
+				encoded = append(encoded, j)
+			}
+		}
+		if len(encoded) > 0 && r.Chance(45) {
+			src := Pick(r, encoded)
+			c := encBy[src]
+			if r.Chance(10) {
+				c = pick() // decoding with another codec: mostly an error
+			}
+			ss = append(ss, c19_sessStep{op: 'D', codec: c, src: src})
+			continue
+		}
+		if r.Chance(6) {
+			ss = append(ss, c19_sessStep{op: 'D', codec: pick(), src: r.Intn(i)})
+			continue
+		}
+		c := pick()
+		ss = append(ss, c19_sessStep{op: 'E', codec: c, src: r.Intn(i)})
+		encBy[i] = c
+	}
+	// never read a slot that holds an error for the Go library: turn such steps into reads of slot 0
+	want := ss.spec(cs)
+	for i := range ss {
+		if ss[i].op != 'L' && want[ss[i].src] == "err" {
+			ss[i].src = 0
+			want = ss.spec(cs)
+		}
+	}
+	return ss
+}
+
+// directed sessions: for every codec the shapes in which a shared output buffer shows
+func c19_directedSessions(cs []c19_sessCodec) []c19_session {
+	L := func(k byte, s string) c19_sessStep { return c19_sessStep{op: 'L', kind: k, lit: []byte(s)} }
+	E := func(c, src int) c19_sessStep { return c19_sessStep{op: 'E', codec: c, src: src} }
+	D := func(c, src int) c19_sessStep { return c19_sessStep{op: 'D', codec: c, src: src} }
+	big := strings.Repeat("0123456789abcdef", 300)
+	pairs := [][2]string{{"a", "b"}, {"first payload", "SECOND PAYLOAD"}, {"long, longer, longest payload", "short"}, {"x", "a much longer second payload \xff\x00"},
+		{"", "non-empty"}, {big, strings.ToUpper(big)}, {big, "tiny"}}
+	var out []c19_session
+	for c := range cs {
+		for pi, p := range pairs {
+			k := byte('b')
+			if pi%2 == 1 {
+				k = 's'
+			}
+			// a := enc(A); b := enc(B); dec(a); dec(b)
+			out = append(out, c19_session{L(k, p[0]), L(k, p[1]), E(c, 0), E(c, 1), D(c, 2), D(c, 3)})
+		}
+		// the same input twice, decode both; decode twice; encode an encoding
+		out = append(out,
+			c19_session{L('b', "same"), E(c, 0), E(c, 0), D(c, 1), D(c, 2)},
+			c19_session{L('s', "A-A-A"), L('s', "B-B-B"), E(c, 0), D(c, 2), E(c, 1), D(c, 4), D(c, 2)},
+			c19_session{L('b', "nested"), E(c, 0), E(c, 1), D(c, 2), D(c, 3)},
+			c19_session{L('b', "A1"), L('b', "B2"), L('b', "C3"), E(c, 0), E(c, 1), E(c, 2), D(c, 3), D(c, 4), D(c, 5)})
+	}
+	return out
+}
+
+func c19Sessions(e *Env, rng *RNG) {
+	cs := c19SessCodecs()
+	n := 2500
+	if !e.Quick {
+		n = 60000
+	}
+	var reqs []string
+	type pend struct{ c, real string }
+	var pends []pend
+	reported := 0
+	runOne := func(ss c19_session, origin string, script bool) {
+		want := ss.spec(cs)
+		text := ss.text(cs)
+		nEnc, nDec, hasErr, allModelled := 0, 0, false, true
+		for i, st := range ss {
+			switch st.op {
+			case 'E':
+				nEnc++
+			case 'D':
+				nDec++
+			}
+			if st.op != 'L' {
+				e.R.H("session-call", string(st.op)+" "+cs[st.codec].label)
+				allModelled = allModelled && cs[st.codec].modelled
+			}
+			hasErr = hasErr || want[i] == "err"
+		}
+		e.R.Case("session "+text, nEnc >= 2 && nDec >= 1)
+		e.R.H("session-origin", origin)
+		e.R.H("session-steps", strconv.Itoa(len(ss)))
+		e.R.H("session-shape", fmt.Sprintf("encodes=%d decodes=%d", min(nEnc, 4), min(nDec, 4)))
+		report := func(route string, fails func(c19_session) string) {
+			if reported >= 5 { // shrinking is not free; a handful of minimised sessions is enough
+				e.R.Spec("session "+route+" "+text, fails(ss)+" — "+ss.words(cs), "")
+				return
+			}
+			reported++
+			small, why := ss.shrink(fails)
+			e.R.Spec("session "+route+" "+small.text(cs), why+" — "+small.words(cs)+"  (minimised from "+text+")", "")
+		}
+		e.R.H("session-route", "object-api")
+		final, bad := ss.runAPI(cs, want)
+		if bad != "" {
+			report("api", func(c c19_session) string { _, b := c.runAPI(cs, c.spec(cs)); return b })
+		}
+		if script && !hasErr {
+			e.R.H("session-route", "script")
+			if b := ss.runScript(cs, want); b != "" {
+				report("script", func(c c19_session) string {
+					w := c.spec(cs)
+					for _, x := range w {
+						if x == "err" {
+							return ""
+						}
+					}
+					return c.runScript(cs, w)
+				})
+			}
+		}
+		if allModelled {
+			parts := make([]string, len(ss))
+			for i, st := range ss {
+				if st.op == 'L' {
+					parts[i] = "L" + c19_hx(string(st.lit))
+				} else {
+					parts[i] = string(st.op) + ":" + cs[st.codec].label + ":" + strconv.Itoa(st.src)
+				}
+			}
+			reqs = append(reqs, "C19\tsession\t"+strings.Join(parts, " "))
+			real := make([]string, len(final))
+			for i, f := range final {
+				real[i] = f
+				if f != "err" && len(f) > 0 && (f[0] == 's' || f[0] == 'b') {
+					real[i] = f[1:] // the model speaks about the byte projection
+				}
+			}
+			pends = append(pends, pend{"session " + text, strings.Join(real, " ")})
+		}
+	}
+	for _, ss := range c19_directedSessions(cs) {
+		runOne(ss, "directed", true)
+	}
+	for i := 0; i < n; i++ {
+		runOne(c19_genSession(rng, cs), "generated", i%4 == 0)
+	}
+	for i, rep := range e.O.AskBatch(reqs) {
+		if rep != pends[i].real {
+			e.R.Mismatch(pends[i].c, pends[i].real, rep, "slots at the end of the session vs C19.runImpl fresh (heap model)")
+		}
+	}
+	e.R.H("session-model", "sessions compared with the Lean heap model: "+strconv.Itoa(len(reqs)))
+}
+
 func c19_runC19(e *Env) {
 	e.R.Rule = "a case is (function or codec, argument tuple, route); arguments are drawn from pools of Unicode / invalid-UTF-8 / empty strings, " +
 		"byte slices, boundary ints and floats, lists and maps of those, with substrings of the first argument for later string arguments, " +
 		"5% ill-typed and 3% wrong-arity tuples, mutated encodings for the decoders; non-trivial when at least one argument is non-ASCII, " +
-		"empty, negative or a boundary number (codecs: empty, non-UTF-8 or containing padding/newlines; json: every tree); distinct by the canonical text of the case"
+		"empty, negative or a boundary number (codecs: empty, non-UTF-8 or containing padding/newlines; json: every tree); distinct by the canonical text of the case. " +
+		"Sessions: sequences of 2-10 steps (literal / encode(slot, codec) / decode(slot, codec)) over live result objects, 65% focused on one codec, related literals " +
+		"(same length, prefix, extension), directed shapes per codec (a:=enc(A); b:=enc(B); dec(a); dec(b) ...), through the object API (all slots re-examined after every step) " +
+		"and as one script; non-trivial when at least two encodes precede a decode. Liveness: the last 6 results of ALL calls of the other parts are kept alive and re-examined " +
+		"after every later call, and every call's arguments are compared before/after"
+	// sessions run first (a minimal sequence makes the clearest replay) on an RNG of their own,
+	// so that the case streams of the other parts are what they were before sessions existed
+	saved := *e.Rng
+	sessRng := NewRNG(e.Rng.Next() ^ 0xC19C19C19)
+	*e.Rng = saved
+	c19Live.r, c19Live.ents = e.R, nil
+	c19Sessions(e, sessRng)
 	c19Codecs(e)
 	c19Floats64(e)
 	c19JSON(e)
 	c19Wrappers(e)
+	e.R.Hist["liveness"] = map[string]int{"results kept alive": c19Live.tracked, "re-examinations of an earlier result after a later call": c19Live.rechecks,
+		"arguments compared before/after their call": c19Live.argChk}
 }
